@@ -302,7 +302,7 @@ fn fuzz_header(rng: &mut Rng) -> Vec<u8> {
 
 pub fn gen(rng: &mut Rng, tier: Tier, out: &mut Vec<String>) {
     let q = tier == Tier::Quick;
-    let k = if q { 1 } else { 12 };
+    let k = if q { 1 } else { 40 };
     out.push("rsws".into());
     // ---- std number grammar and printing
     for n in [0u64, 1, 9, 10, 99, 100, 255, 256, 65535, 65536, 4294967295, 1000000000, 4294967290] {
@@ -397,6 +397,21 @@ pub fn gen(rng: &mut Rng, tier: Tier, out: &mut Vec<String>) {
             v.extend(b"12#34 5");
         }
         out.push(format!("parse {} any", hex_bytes(&v)));
+    }
+    // ---- P4 with widths that are multiples of 8 (no row-padding question): expected image known
+    for _ in 0..60 * k {
+        let (w, h) = (8 * (1 + rng.below(2)), rng.below(4));
+        let bytes: Vec<u8> = (0..w * h / 8).map(|_| nasty_byte(rng)).collect();
+        let mut px = vec![];
+        for byte in &bytes {
+            for i in (0..8).rev() {
+                let c = if (byte >> i) & 1 == 1 { 0u8 } else { 255 };
+                px.extend([c, c, c]);
+            }
+        }
+        let mut v = valid_header(rng, b"P4", w, h, None);
+        v.extend(&bytes);
+        out.push(format!("parse {} exp {w} {h} {}", hex_bytes(&v), px_hex(&px)));
     }
     // ---- header grammar fuzz, huge and zero dimensions
     for _ in 0..3000 * k {
